@@ -1009,6 +1009,17 @@ def o_cancel(w, tr):
 def o_fs(w, tr):
     """C06 end-state clauses (the at-every-instant clause is checked by the fs monitor)."""
     out = []
+    if w.sched.outcome == 'deadlock':
+        # nothing can run any more: a cancelled / failed download that has not cleaned up by now never will
+        ended = tr.ev('inject') or w.all_injected()
+        temps = sorted(n for n in w.final_listing if '.' in n and n.startswith('dst'))
+        stuck = [i['idx'] for i in w.transfers if i['op'] == 'download' and i['t'].get('dst', 'path') == 'path' and i['idx'] not in w.outcomes]
+        if ended and temps and stuck:
+            out.append(('C06:temp-file-left-forever',
+                        f'downloads {stuck} were cancelled / failed, no thread can make progress any more, and {temps} are still on disk'))
+        for v in w.sched.user.get('fs_monitor_violations', [])[:1]:
+            out.append(v)
+        return out
     if w.sched.outcome != 'ok' or not w.script_done:
         return out
     expected_names = set()
